@@ -77,7 +77,8 @@ class _DatasetFillerContext:
         """
         # Make sure that we do not accidentally traverse the directory above
         # `dataset_root_path`.
-        if ".." in relative_path_from_split.parts:
+        if (relative_path_from_split.is_absolute() or
+                ".." in relative_path_from_split.parts):
 
             raise ValueError("The `relative_path_from_split` may not contain "
                              "'..' which could allow accidental directory "
